@@ -51,6 +51,7 @@ def run(idx: ProgramIndex, rep: Report, tier: str):
     own_leading_shape(idx, rep)
     result_buffers_broadcast(idx, rep)
     sizes_from_the_right(idx, rep)
+    event_ranks_agree(idx, rep)
 
 
 def _families(idx: ProgramIndex) -> List[ClassInfo]:
@@ -719,3 +720,174 @@ def sizes_from_the_right(idx: ProgramIndex, rep: Report):
     if [t for _x, t in _left_size_queries(ctl, {"dist", "target"})] != ["len(target)"]:
         raise AnalysisError("C08-12: positive control not matched")
     rep.floor("C08-12", "methods of the objective classes", n, 15)
+
+
+# ---- C08-13 --------------------------------------------------------------------------------------------------------
+def _registered_event_ranks(idx: ProgramIndex, cls) -> dict:
+    """name of a registered parameter (raw and constrained name) -> number of trailing event dimensions of its registration"""
+    out = {}
+    for k in cls.repo_mro():
+        for m in k.methods.values():
+            for c in calls_in(m.node):
+                if not (isinstance(c.func, ast.Attribute) and c.func.attr == "register_parameter"):
+                    continue
+                nm = None
+                val = None
+                for kw in c.keywords:
+                    if kw.arg == "name":
+                        nm = kw.value
+                    if kw.arg == "parameter":
+                        val = kw.value
+                if nm is None and c.args:
+                    nm = c.args[0]
+                if val is None and len(c.args) > 1:
+                    val = c.args[1]
+                if not (isinstance(nm, ast.Constant) and isinstance(nm.value, str)) or val is None:
+                    continue
+                ctor = next((x for x in ast.walk(val) if isinstance(x, ast.Call) and (chain(x.func) or "") in ("torch.zeros", "torch.ones", "torch.randn", "torch.rand", "torch.empty", "torch.full")), None)
+                if ctor is None:
+                    continue
+                args = ctor.args
+                if len(args) == 1 and isinstance(args[0], (ast.Tuple, ast.List)):
+                    args = list(args[0].elts)
+                if not args or not isinstance(args[0], ast.Starred) or any(isinstance(a, ast.Starred) for a in args[1:]):
+                    continue
+                r = len(args) - 1
+                out.setdefault(nm.value, r)
+                if nm.value.startswith("raw_"):
+                    out.setdefault(nm.value[4:], r)
+    return out
+
+
+def event_ranks_agree(idx: ProgramIndex, rep: Report):
+    """see domains/eventrank.py: a batch-leading parameter with k trailing event dimensions is combined elementwise with a data-derived
+    value of the same event rank only (an n1 x n2 matrix: rank 2; a diagonal: rank 1) - on the diag and on the non-diag path, inside
+    local closures and inside the helper methods the forward calls."""
+    from ..domains.eventrank import RankEval, Val
+    from ..symbolic import walk_paths
+    rep.rule("C08-13", "a batch-leading parameter meets data-derived values of its own event rank (matrix: 2, diagonal: 1) on the diag and the non-diag path, also inside closures and helper methods (event-rank domain)")
+    K = idx.cls(idx.package + ".kernels.kernel", "Kernel")
+    n = 0
+    for cls in sorted(idx.package_classes(), key=lambda c: (c.module.name, c.qualname)):
+        if not cls.is_subclass_of(K):
+            continue
+        fi = cls.methods.get("forward")
+        if fi is None or len(fi.params) < 3:
+            continue
+        ranks = _registered_event_ranks(idx, cls)
+        low = {k: v for k, v in ranks.items() if v < 2}
+        if not low:
+            continue
+        n += 1
+        problems = set()
+        checked = 0
+
+        def run_body(body, ev, depth=0):
+            """evaluate statements in order; returns the Val of the first return reached"""
+            ret = None
+            for st in body:
+                if isinstance(st, ast.Assign) and len(st.targets) == 1 and isinstance(st.targets[0], ast.Name):
+                    ev.env[st.targets[0].id] = ev.ev(st.value)
+                elif isinstance(st, ast.AugAssign) and isinstance(st.target, ast.Name):
+                    ev.env[st.target.id] = ev.combine(ev.env.get(st.target.id), ev.ev(st.value), st)
+                elif isinstance(st, ast.FunctionDef):
+                    fdef = st
+
+                    def closure(args, call, fdef=fdef, ev=ev):
+                        sub = RankEval(ev.sn, ev.param_rank, ev.diag, call_method=ev.call_method, call_function=ev.call_function)
+                        sub.env = dict(ev.env)
+                        for p_, a_ in zip([x.arg for x in fdef.args.args], args):
+                            sub.env[p_] = a_
+                        r = run_body(fdef.body, sub, depth + 1)
+                        ev.problems += sub.problems
+                        ev.checked += sub.checked
+                        return r
+                    ev.env[st.name] = closure
+                elif isinstance(st, ast.Return):
+                    ret = ev.ev(st.value) if st.value is not None else None
+                    return ret
+                elif isinstance(st, ast.Expr):
+                    ev.ev(st.value)
+                elif isinstance(st, ast.If):
+                    t = ev.truth(st.test)
+                    if t is True:
+                        r = run_body(st.body, ev, depth)
+                    elif t is False:
+                        r = run_body(st.orelse, ev, depth)
+                    else:
+                        # both arms, on copies of the environment (the first return wins only if both return)
+                        e1 = dict(ev.env)
+                        r1 = run_body(st.body, ev, depth)
+                        env_after_1 = ev.env
+                        ev.env = e1
+                        r2 = run_body(st.orelse, ev, depth)
+                        for k_ in set(env_after_1) | set(ev.env):
+                            a_, b_ = env_after_1.get(k_), ev.env.get(k_)
+                            if a_ is not b_ and not (isinstance(a_, Val) and isinstance(b_, Val) and a_.rank == b_.rank and a_.param == b_.param and a_.data == b_.data):
+                                if callable(a_) or callable(b_):
+                                    ev.env[k_] = a_ if callable(a_) else b_
+                                else:
+                                    ev.env[k_] = Val(None, bool(getattr(a_, "param", False) or getattr(b_, "param", False)), bool(getattr(a_, "data", False) or getattr(b_, "data", False))) if (a_ or b_) else None
+                        r = None
+                    if r is not None and t is not None:
+                        return r
+            return ret
+
+        def call_function(fname, args, call, depth=[0]):
+            try:
+                f = idx.function(fi.module.name, fname)
+            except AnalysisError:
+                return None
+            if depth[0] > 1:
+                return None
+            sub = RankEval("self", lambda a: None, None)
+            for p_, a_ in zip(f.params, args):
+                sub.env[p_] = a_
+            depth[0] += 1
+            try:
+                return run_body(body_without_docstring(f.node), sub)
+            finally:
+                depth[0] -= 1
+
+        for diag in (False, True):
+            def call_method(mname, args, call, diag=diag, depth=[0]):
+                m = cls.lookup(mname)
+                if m is None or not m.module.name.startswith(idx.package) or m.kind == "property" or depth[0] > 1 or mname in ("covar_dist", "forward", "__call__"):
+                    return None
+                sub_diag = diag
+                names = m.params[1:]
+                for kw in call.keywords:
+                    if kw.arg == "diag":
+                        t_ = ev_main.truth(kw.value)
+                        sub_diag = t_
+                if "diag" in names and not any(kw.arg == "diag" for kw in call.keywords):
+                    i_ = names.index("diag")
+                    sub_diag = ev_main.truth(call.args[i_]) if i_ < len(call.args) else False
+                elif "diag" not in names:
+                    sub_diag = None  # the helper cannot know
+                sub = RankEval(m.params[0], lambda a: low.get(a, ranks.get(a)), sub_diag, call_method=call_method, call_function=call_function)
+                for p_, a_ in zip(names, args):
+                    sub.env[p_] = a_
+                depth[0] += 1
+                try:
+                    r = run_body(body_without_docstring(m.node), sub)
+                finally:
+                    depth[0] -= 1
+                for l_, t_ in sub.problems:
+                    problems.add((l_, "in %s: %s" % (mname, t_)))
+                nonlocal_checked[0] += sub.checked
+                return r
+            nonlocal_checked = [0]
+            ev_main = RankEval(fi.params[0], lambda a: low.get(a, ranks.get(a)), diag, call_method=call_method, call_function=call_function)
+            ev_main.env[fi.params[1]] = Val(2, data=True)
+            ev_main.env[fi.params[2]] = Val(2, data=True)
+            run_body(body_without_docstring(fi.node), ev_main)
+            for l_, t_ in ev_main.problems:
+                problems.add((l_, t_))
+            checked += ev_main.checked + nonlocal_checked[0]
+        rep.add("C08-13", "%s:%s.forward[event ranks]" % (cls.module.name, cls.qualname), fi.where, not problems,
+                "%d combination(s) of %s with data-derived values, event ranks agree on both paths" % (checked, "/".join(sorted(low))) if not problems else
+                "; ".join("line %d: %s" % (l_, t_) for l_, t_ in sorted(problems)[:3]), {"checked": checked, "parameters": sorted(low)})
+        if checked == 0:
+            rep.observe("C08-13", "%s:%s.forward" % (cls.module.name, cls.qualname), fi.where, "no combination of %s with a data-derived value of known event rank could be formed: outside the event-rank domain" % "/".join(sorted(low)))
+    rep.floor("C08-13", "kernels with a parameter of event rank < 2", n, 5)
